@@ -74,6 +74,23 @@ CLAIMED = {
    technique="contract-based deductive verification: VCs from the jaxpr of the real forward-mode code over uninterpreted "
              "embeddings; pointwise side obtained by symbolic differentiation of the twin; ring normalisation + z3",
    design_ref="DESIGN.md §5 C11", note=B_NOTE + " d <= 3, B <= 2, r <= 2, outputs <= 2 enumerated."),
+ "C12": dict(
+   text="With batch.param_batch_dict carrying any subset K of the equation parameters, every term of the three single "
+        "losses (and the dynamic part of system losses) evaluates sample i with row i of the batched keys and the caller's "
+        "value of the others — in the network input, in the residual and in the gradient routing (symbolic masks); "
+        "observed parameters combine with batched ones; a heterogeneous parameter is replaced by h_k(point, u, params) "
+        "for the equation only, undeclared ones pass through, other terms see the caller's values.",
+   technique="contract-based deductive verification: VCs from the jaxpr of the real evaluate methods (and of jax.grad of "
+             "them) over uninterpreted networks / residuals / heterogeneity maps, ring normalisation + z3",
+   design_ref="DESIGN.md §5 C12", note=B_NOTE + " Terms whose points are not the collocation batch (normalisation samples, 1-D border pair) are not configured."),
+ "C13": dict(
+   text="SystemLossODE / SystemLossPDE: dyn term == sum_e w_e mean_i |R^e(t_i, x_i, all nets, all params)|^2 with the "
+        "equation called in the documented (t, x, u_dict, params_dict) order, every other term == sum_u w^u * single-"
+        "network term of u; scalar / per-key dict / None weights; 1..3 equations x 1..2 unknowns independently; "
+        "one-equation one-unknown system == plain loss (relational obligation).",
+   technique="contract-based deductive verification: VCs from the jaxpr of the real system-loss evaluate (objects built "
+             "by the real constructors) over uninterpreted equations and networks, ring normalisation + z3",
+   design_ref="DESIGN.md §5 C13", note=B_NOTE),
 }
 PENDING_REASON = "check not built yet (framework under construction); will be claimed once its contracts verify"
 NA = {}
